@@ -736,7 +736,10 @@ impl<'a> Searcher<'a> {
                                                         break;
                                                     }
 
-                                                    if let Ok(afile) = archive.by_index(i) {
+                                                    // only the directory entry of the member is needed: a raw reader
+                                                    // also exists for members that cannot be unpacked (encrypted,
+                                                    // unsupported compression method)
+                                                    if let Ok(afile) = archive.by_index_raw(i) {
                                                         let file_info = to_file_info(&afile);
                                                         let checked = self
                                                             .check_file(&entry, &Some(file_info))?;
